@@ -58,6 +58,10 @@ def plan(proj, ops, tier, rnd):
         for sub in itertools.combinations(names, r):
             rules = ";".join("kind=rename,dst~=%s,act=errno:%d" % (os.path.basename(n), fault.ERRNO["EXDEV"]) for n in sub)
             inj.append(("subset-rename:" + "+".join(os.path.basename(n) for n in sub), rules, "subset"))
+    # the rename of one file fails on every attempt with an errno that invites retrying (busy bind mount, NFS time-out)
+    for n in names[:2]:
+        for e in ("EBUSY", "EINTR", "EAGAIN", "ETIMEDOUT"):
+            inj.append(("rename-always-%s:%s" % (e, os.path.basename(n)), "kind=rename,dst~=%s,act=errno:%d" % (os.path.basename(n), fault.ERRNO[e]), "subset"))
     # every temp create fails / every second one
     inj.append(("all-tmp-creates-fail", "kind=openw,path~=/tmp/breadlog-,act=errno:13", "subset"))
     inj.append(("all-writes-short", "kind=write,act=short", "short"))
